@@ -177,7 +177,7 @@ def workload(ck):
                 ('c10x4', '.pyx', 'latin-1', False, 250)]
     else:
         plan = []
-        for i in range(38):
+        for i in range(20):
             ext = '.py' if i % 2 == 0 else '.pyx'
             enc, bom = [('utf-8', False), ('utf-8', True), ('latin-1', False), ('utf-8', False)][(i // 2) % 4]
             plan.append(('c10%s%d' % ('p' if ext == '.py' else 'x', i), ext, enc, bom, 1050))
@@ -317,7 +317,20 @@ def main(ck):
     per_func = {}        # (mod, func) -> {setting: (exp, got)} for mismatches
     judged = {}          # (mod, func) -> settings judged
     hist = {}
-    for (mod, st, d), b in zip(builds, bres):
+    from concurrent.futures import ThreadPoolExecutor
+
+    def run_one(item):
+        (mod, st, d), b = item
+        if not b['ok']:
+            return None
+        cases = [{'f': f['name'], 'a': '()', 't': '%s/%s' % (f['form'], f['lit']['kind'])} for f in mod.funcs]
+        cases.append({'f': 'pad', 'a': '()', 't': 'pad'})
+        return diff.run_cases(tree, d, mod.name, cases, ref_mod='ref_' + mod.name, extra_path=(refdir,),
+                              compare={'log': False}, tagdir='run_%s_%d' % (mod.name, st), timeout=900, nproc=2)
+
+    with ThreadPoolExecutor(6) as ex:
+        runs = list(ex.map(run_one, zip(builds, bres)))
+    for ((mod, st, d), b), r in zip(zip(builds, bres), runs):
         eff = effective_algo(st, mod.algos)
         cell = '%s/%s/%s' % (mod.ext, mod.encoding + ('+bom' if mod.bom else ''), ALGO_OF[st])
         if not b['ok']:
@@ -327,10 +340,6 @@ def main(ck):
         if eff != ALGO_OF[st]:
             not_exercised.append('%s setting %d (%s) falls back to %s: algorithm not in the generated ladder %s' % (
                 mod.name, st, ALGO_OF[st], eff, [a for a, _ in mod.algos]))
-        cases = [{'f': f['name'], 'a': '()', 't': '%s/%s' % (f['form'], f['lit']['kind'])} for f in mod.funcs]
-        cases.append({'f': 'pad', 'a': '()', 't': 'pad'})
-        r = diff.run_cases(tree, d, mod.name, cases, ref_mod='ref_' + mod.name, extra_path=(refdir,),
-                           compare={'log': False}, tagdir='run_%s_%d' % (mod.name, st), timeout=600, nproc=2)
         for ft in r.fatal:
             ck.discrepancy('module-import:%s:%s' % (ALGO_OF[st], 'effective-' + eff),
                            'module %s built with CYTHON_COMPRESS_STRINGS=%d could not be imported / driven: %s' % (
@@ -344,13 +353,10 @@ def main(ck):
         samples.extend(r.samples[:1])
         for k, v in r.hist.items():
             hist[k] = hist.get(k, 0) + v
-        bad = set()
         for m in r.mismatches:
             per_func.setdefault((mod.name, m['case']['f']), {})[st] = (m['exp'], m['got'])
-            bad.add(m['case']['f'])
         for c in r.crashes:
             per_func.setdefault((mod.name, c['case']['f']), {})[st] = (['?'], ['crash', c['kind']])
-            bad.add(c['case']['f'])
         for f in mod.funcs:
             judged.setdefault((mod.name, f['name']), set()).add(st)
     # ---- classification
